@@ -21,8 +21,8 @@ CHECKS = {
 
 CHECKS["C14"] = dict(
     engine=E2,
-    technique="exhaustive enumeration of the emitted header form (QFI 0..63 x PDU type 0..15 x ext x TEIDs x payload lengths 0..MTU) decoded by an independent GTP-U / TS 38.415 decoder",
-    text="Bounded-exhaustive model checking of the G-PDU encoder: the full product of the finite field domains is encoded by the real gtpv1.Message.Encode and by Gtp5g.WritePacket through a real UDP socket, and every packet is parsed by a reference decoder written from TS 29.281/38.415 that shares no code with the encoder.",
+    technique="exhaustive enumeration of the emitted header form (QFI 0..63 x PDU type 0..15 x ext x TEIDs x payload lengths 0..MTU) and of the end-to-end BUFF->FORW re-injection of two PDRs with own QFIs in {none,0..63}, decoded by an independent GTP-U / TS 38.415 decoder",
+    text="Bounded-exhaustive model checking of the G-PDU encoder: the full product of the finite field domains is encoded by the real gtpv1.Message.Encode and by Gtp5g.WritePacket through a real UDP socket; in addition the real PfcpServer + gtp5g driver over the simulated kernel re-inject one buffered packet for each of two PDRs of one FAR for all pairs of own QFIs (quick: each value against 7 representatives in both roles; thorough: full 65x65 product); every packet is parsed by a reference decoder written from TS 29.281/38.415 that shares no code with the encoder.",
     note="Trusted: the reference decoder in harness/internal/verif/c14; only the header form the UPF emits (flags 0x34) is covered, as the property states.",
     design_ref="DESIGN.md section 5, C14",
 )
